@@ -986,7 +986,7 @@ def _check(run, tmp):
         ok, _log = vlib.standard_proof_step(run, ['Iface/FactoryCheck.vo'])
         proofs_ok = ok
     r = random.Random(run.seed)
-    n_specs = 110 if run.tier == 'quick' else 1500
+    n_specs = 320 if run.tier == 'quick' else 2500
     hooks = Hooks()
     cases = []
     case_info = {}
@@ -1003,7 +1003,7 @@ def _check(run, tmp):
             src, dsrc, decos = render(spec)
             items.append((spec, src, dsrc, decos))
         # the stream with defaults changed after the definition (guard of the known finding)
-        n_cleared = 12 if run.tier == 'quick' else 80
+        n_cleared = 24 if run.tier == 'quick' else 150
         for i in range(n_cleared):
             spec = gen_spec(r, len(items))
             spec['kind'] = r.choice(['nested', 'toplevel', 'method'])
